@@ -8,6 +8,7 @@ CONSTANTS
   GarbageLens = {0, 15}
   DecoyCounts = {0, 1}
   Hellos = {"v2"}
+  Encodings = {"canon"}
   PrefixMatches = {0}
   Sizes = {1}
   IgnoreOpts = {FALSE, TRUE}
